@@ -330,8 +330,18 @@ def key_case(case):
             if klass.__name__ in du.BODY_MAY_FAIL:
                 r.count('ctor-body-needs-external-data')
             else:
-                r.check(False, 'constructor-accepts', '%sctor-raised/%s/%s/%s' % (pre, tag, keys, exc_sig(err)),
-                        exc=repr(err), text=text)
+                # a value the class itself refuses (a zero opacity, no layers): the file path fails exactly as the
+                # library call with the arguments that arrived does
+                try:
+                    klass(**dict(got))
+                    lib_err = None
+                except Exception as e2:
+                    lib_err = e2
+                if lib_err is not None and type(lib_err) is type(err) and str(lib_err) == str(err):
+                    r.count('ctor-refuses-value-as-the-library-call-does')
+                else:
+                    r.check(False, 'constructor-accepts', '%sctor-raised/%s/%s/%s' % (pre, tag, keys, exc_sig(err)),
+                            exc=repr(err), text=text, library_call=repr(lib_err))
             return False
         objs = built_objects(sec, obj)
         r.check(len(objs) == 1 and type(objs[0]) is klass and calls[0][1] is objs[0],
